@@ -70,6 +70,21 @@ func keyClasses(r *mon.RNG, nRandom int, deep bool) []testKey {
 		used[f.Cls]++
 		out = append(out, k)
 	}
+	// coordinates whose first byte looks like a point-conversion marker (02, 03, 04): found once by search over small d,
+	// membership re-validated here with the reference
+	for _, f := range []struct {
+		cls string
+		d   int64
+	}{{"x-top=04", 11}, {"y-top=04", 16}, {"x-top=03", 400}, {"x-top=02", 424}, {"y-top=02", 504}, {"y-top=03", 728}} {
+		k := mkKey(f.cls, big.NewInt(f.d))
+		v := k.x
+		if f.cls[0] == 'y' {
+			v = k.y
+		}
+		if top := v.FillBytes(make([]byte, 32))[0]; fmt.Sprintf("%02x", top) == f.cls[6:] {
+			out = append(out, k)
+		}
+	}
 	for i := 0; i < nRandom; i++ {
 		d := new(big.Int).SetBytes(r.Bytes(32))
 		d.Mod(d, new(big.Int).Sub(ref.N, big.NewInt(2)))
